@@ -8,6 +8,8 @@ import (
 	"sort"
 	"strconv"
 	"strings"
+	"sync"
+	"sync/atomic"
 	"time"
 
 	kmip "github.com/smira/go-kmip"
@@ -50,6 +52,7 @@ func runC18(r *Result, d *drv.Driver, tier string, seed int64, replay string) {
 	c18StructTagsStable(r, seed)
 	c18Options(r)
 	c18MarkerForms(r)
+	c18OtherKeys(r)
 	// samples: what the real encoder emits for a few annotations
 	for _, name := range []string{"UNIQUE_IDENTIFIER", "REQUEST_MESSAGE", "SENSITIVE"} {
 		r.sample(map[string]string{"annotation": name, "real_encode": encodeWithAnnotation(name)})
@@ -105,6 +108,7 @@ func runC19(r *Result, d *drv.Driver, tier string, seed int64, replay string) {
 	c19Wire(r, seed, tier)
 	c19WireBig(r)
 	c19Reuse(r)
+	c19Concurrent(r)
 	if len(parts) == 2 && parts[1] != "" {
 		for _, e := range strings.Split(parts[1], ";") {
 			f := strings.Split(e, "|")
@@ -415,6 +419,57 @@ func c18Options(r *Result) {
 		}
 	}
 	r.Stats["annotation-option-probes"] = len(names) * 4
+}
+
+// c18OtherKeys: a Go struct tag is a list of key:"value" pairs and `kmip` need be neither the only nor the last one
+// (`kmip:"SALT" json:"salt"` is the ordinary way to make one type serve two encodings). For EVERY tag name of the table,
+// as a field annotation and as the struct's own annotation, with other keys before and after the kmip key - including keys
+// whose values contain the words the kmip options use -: Encode writes exactly the bytes it writes when kmip is the only key.
+func c18OtherKeys(r *Result) {
+	var names []string
+	for _, kv := range gentab.MapKeys["tagMap"] {
+		names = append(names, strings.SplitN(kv, "=", 2)[0])
+	}
+	tTag := reflect.TypeOf(kmip.Tag(0))
+	enc := func(own, field reflect.StructTag, v int32) string {
+		st := reflect.StructOf([]reflect.StructField{
+			{Name: "Tag", Type: tTag, Anonymous: true, Tag: own},
+			{Name: "F", Type: reflect.TypeOf(int32(0)), Tag: field}})
+		val := reflect.New(st)
+		val.Elem().Field(1).SetInt(int64(v))
+		out, _, _ := realEncode(val.Interface())
+		return out
+	}
+	type form struct{ pre, post string }
+	forms := []form{{"", ` json:"x"`}, {`json:"x" `, ""}, {`json:"x,omitempty" `, ` yaml:"y" validate:"required"`}, {"", ` db:"skip,required"`}, {`xml:"kmip" `, ` json:"-"`}}
+	bad := 0
+	for _, x := range names {
+		if x == "-" || x == "ANY_TAG" {
+			continue
+		}
+		for _, opt := range []string{"", ",required"} {
+			for _, v := range []int32{0, 5} {
+				plainField := enc(`kmip:"ACTIVATION_DATE"`, reflect.StructTag(fmt.Sprintf(`kmip:"%s%s"`, x, opt)), v)
+				plainOwn := enc(reflect.StructTag(fmt.Sprintf(`kmip:"%s"`, x)), `kmip:"BATCH_COUNT,required"`, v)
+				for _, f := range forms {
+					r.Evaluations += 2
+					gotField := enc(`kmip:"ACTIVATION_DATE"`, reflect.StructTag(fmt.Sprintf(`%skmip:"%s%s"%s`, f.pre, x, opt, f.post)), v)
+					gotOwn := enc(reflect.StructTag(fmt.Sprintf(`%skmip:"%s"%s`, f.pre, x, f.post)), `kmip:"BATCH_COUNT,required"`, v)
+					if gotField != plainField && bad < 5 {
+						bad++
+						r.find(Finding{Kind: "violation", What: "the field annotation kmip:\"" + x + opt + "\" does not resolve to the number of " + x + " when the struct tag carries other keys too",
+							Input: map[string]string{"struct tag": fmt.Sprintf(`%skmip:"%s%s"%s`, f.pre, x, opt, f.post), "field value": fmt.Sprint(v)}, Expect: plainField, Actual: gotField})
+					}
+					if gotOwn != plainOwn && bad < 5 {
+						bad++
+						r.find(Finding{Kind: "violation", What: "the struct annotation kmip:\"" + x + "\" does not resolve to the number of " + x + " when the struct tag carries other keys too",
+							Input: map[string]string{"struct tag": fmt.Sprintf(`%skmip:"%s"%s`, f.pre, x, f.post)}, Expect: plainOwn, Actual: gotOwn})
+					}
+				}
+			}
+		}
+	}
+	r.Stats["annotation-other-key-probes"] = len(names) * 2 * 2 * len(forms) * 2
 }
 
 // c18MarkerForms: the struct-level annotation in each form Go allows its carrier to take - the embedded Tag field the
@@ -765,5 +820,104 @@ func c19Reuse(r *Result) {
 				compare(fmt.Sprintf("a decoded %s in which same-typed structure fields were swapped", tn), v)
 			}
 		}
+	}
+}
+
+// gateWriter blocks inside its k-th Write call - before looking at the bytes it was handed, as a connection whose peer is slow
+// does - until released.
+type gateWriter struct {
+	buf     bytes.Buffer
+	n, k    int
+	entered chan struct{}
+	release chan struct{}
+}
+
+func (w *gateWriter) Write(p []byte) (int, error) {
+	w.n++
+	if w.n == w.k {
+		close(w.entered)
+		<-w.release
+	}
+	return w.buf.Write(p)
+}
+
+// c19Concurrent: what an Encoder writes depends on the value and on nothing else - in particular not on what OTHER Encoders
+// (other sessions of a Server, other Clients of the process) write at the same time. For each pair of messages A, B and each
+// Write call k that encoding A makes: A's destination blocks inside its k-th Write, B is encoded meanwhile by another
+// Encoder, the destination is released: both outputs are the bytes of the sequential encodings - every item under its own tag.
+// Then 8 goroutines encode the messages over and over at once.
+func c19Concurrent(r *Result) {
+	ver := kmip.ProtocolVersion{Major: 1, Minor: 4}
+	msgs := []interface{}{
+		&kmip.Request{Header: kmip.RequestHeader{Version: ver, BatchCount: 1}, BatchItems: []kmip.RequestBatchItem{{Operation: kmip.OPERATION_GET, RequestPayload: kmip.GetRequest{UniqueIdentifier: "49a1ca88-6bea-4fb2-b450-7e58802c3038"}}}},
+		&kmip.Response{Header: kmip.ResponseHeader{Version: ver, TimeStamp: time.Unix(1000000000, 0), BatchCount: 1},
+			BatchItems: []kmip.ResponseBatchItem{{Operation: kmip.OPERATION_DESTROY, ResultStatus: kmip.RESULT_STATUS_SUCCESS, ResponsePayload: kmip.DestroyResponse{UniqueIdentifier: "fb4b5b9c-6188-4c63-8142-fe9c328129fc"}}}},
+		&kmip.KeyBlock{FormatType: 1, WrappingData: kmip.KeyWrappingData{WrappingMethod: 1}, CryptographicLength: 128},
+		&kmip.TemplateAttribute{Name: kmip.Name{Value: "n", Type: 1}, Attributes: kmip.Attributes{{Name: kmip.ATTRIBUTE_NAME_CRYPTOGRAPHIC_LENGTH, Value: int32(2048)}}},
+	}
+	var want [][]byte
+	var writes []int
+	for _, m := range msgs {
+		cw := &gateWriter{k: -1}
+		if err := kmip.NewEncoder(cw).Encode(m); err != nil {
+			r.find(Finding{Kind: "disagreement", What: "c19Concurrent: a scenario message does not encode", Actual: err.Error()})
+			return
+		}
+		want = append(want, append([]byte(nil), cw.buf.Bytes()...))
+		writes = append(writes, cw.n)
+	}
+	bad := 0
+	for a := range msgs {
+		for b := range msgs {
+			for k := 1; k <= writes[a]; k++ {
+				key := fmt.Sprintf("%T encoded into a destination that blocks in Write call %d of %d while another Encoder encodes a %T", msgs[a], k, writes[a], msgs[b])
+				r.eval(key, true)
+				gw := &gateWriter{k: k, entered: make(chan struct{}), release: make(chan struct{})}
+				done := make(chan error, 1)
+				go func() { done <- kmip.NewEncoder(gw).Encode(msgs[a]) }()
+				select {
+				case <-gw.entered:
+				case <-time.After(3 * time.Second):
+					r.find(Finding{Kind: "disagreement", What: "c19Concurrent: the encoder did not reach the Write call", Input: key})
+					close(gw.release)
+					<-done
+					continue
+				}
+				var bb bytes.Buffer
+				errB := kmip.NewEncoder(&bb).Encode(msgs[b])
+				close(gw.release)
+				errA := <-done
+				r.Stats["concurrent-encoder-interleavings"]++
+				if (errA != nil || errB != nil || !bytes.Equal(gw.buf.Bytes(), want[a]) || !bytes.Equal(bb.Bytes(), want[b])) && bad < 4 {
+					bad++
+					r.find(Finding{Kind: "violation", What: "an item was written under another tag / type / length than its own because another Encoder was active at the same time",
+						Input: key, Expect: hx(want[a]) + " | " + hx(want[b]), Actual: fmt.Sprintf("%s | %s (errors %v, %v)", hx(gw.buf.Bytes()), hx(bb.Bytes()), errA, errB)})
+				}
+			}
+		}
+	}
+	// free-running
+	var wg sync.WaitGroup
+	var wrong int32
+	var first atomic.Value
+	for g := 0; g < 8; g++ {
+		wg.Add(1)
+		go func(g int) {
+			defer wg.Done()
+			for i := 0; i < 400; i++ {
+				j := (g + i) % len(msgs)
+				var bb bytes.Buffer
+				if err := kmip.NewEncoder(&bb).Encode(msgs[j]); err != nil || !bytes.Equal(bb.Bytes(), want[j]) {
+					if atomic.AddInt32(&wrong, 1) == 1 {
+						first.Store(fmt.Sprintf("%T: %s (err %v)", msgs[j], hx(bb.Bytes()), err))
+					}
+				}
+			}
+		}(g)
+	}
+	wg.Wait()
+	r.Evaluations += 8 * 400
+	if wrong > 0 {
+		r.find(Finding{Kind: "violation", What: "Encoders running at the same time in different goroutines produced other bytes than they produce one after the other", Input: "8 goroutines x 400 messages", Actual: fmt.Sprintf("%d wrong outputs; first: %v", wrong, first.Load())})
 	}
 }
